@@ -70,6 +70,8 @@ def build(eng, pattern, folders, opts, sym, names=None):
         else:
             e["mtime"] = sym["mtime"][i]
             eng.assume(eng.range_cond(e["mtime"], 63))
+        if opts.get("digests") == "partial" and k in "fl" and sum(1 for c_ in pattern[:i] if c_ in "fl") % 2 == 1:
+            e["crc_defined"] = False     # every second data member carries no CRC (digest vector only partly defined)
         if opts.get("ctime"):
             e["ctime"] = eng.sym_int("ctime%d" % i, 63)   # the base also carries creation times
             eng.assume(eng.range_cond(e["ctime"], 63))
@@ -115,6 +117,7 @@ def shapes(tier, max_entries=None):
         ("fdf", [2], {"attrs": "none"}),      # no attribute property at all: kinds come from the empty-stream vectors
         ("ff", [1, 1], {"crc_at": "folder", "omit_substreams": True}),   # SubStreamsInfo absent
         ("ff", [1, 1], {"packcrc": True, "packcrc_defined": [False, True]}),   # packed-stream digests only partly defined
+        ("fff", [2, 1], {"digests": "partial"}),                               # member digests only partly defined
         ("fdf", [1, 0, 1], {}),   # a folder without any substream (py7zr's own append of a lone directory leaves one)
         ("d", [], {}),
         ("", [], {}),
